@@ -35,7 +35,7 @@ def T.orderedCheck (t : T (Ent V)) : Bool := strictlyIncreasing t.keys
 sorted, they are exactly `0, 1, …, bufLen-1` -/
 def slotsCheck (t : T ε) (p : Pool) : Bool :=
   (0 :: (t.slots ++ p.unused)).mergeSort (fun a b => decide (a ≤ b)) == List.range p.bufLen
-    && decide (p.unused.length ≤ p.cap)
+    && decide (p.unused.length ≤ p.cap) && decide (0 < p.cap)
 
 def St.wfCheck (st : St V) : Bool :=
   st.tree.orderedCheck && st.tree.balCheck.isSome && slotsCheck st.tree st.pool
